@@ -40,6 +40,12 @@ pub fn exists(path: &Path) -> Result<bool> {
     Ok(found(path.metadata())?.is_some())
 }
 
+/// Whether `path` names an existing entry, *not* following a final
+/// symlink: a dangling symlink is an existing entry.
+pub fn lexists(path: &Path) -> Result<bool> {
+    Ok(found(path.symlink_metadata())?.is_some())
+}
+
 /// Whether `path` is (or is a symlink to) a directory.
 pub fn is_dir(path: &Path) -> Result<bool> {
     Ok(found(path.metadata())?.is_some_and(|meta| meta.is_dir()))
